@@ -80,9 +80,9 @@ func (d Decryptor) Decrypt(ct *Ciphertext, pt *Plaintext) {
 		}
 	}
 
-	if (ct.Degree())&7 != 7 {
-		ringQ.Reduce(pt.Value, pt.Value)
-	}
+	// The components added after the last periodic reduction are lazily
+	// reduced (coefficient-domain ciphertexts), hence always reduces here.
+	ringQ.Reduce(pt.Value, pt.Value)
 
 	if !ct.IsNTT {
 		ringQ.INTT(pt.Value, pt.Value)
